@@ -10,6 +10,10 @@
 //! K: statements of each text == statements of the Lean model (`dts`, `js`, `loaderJs`) for the same abstract config/file.
 //! O: the property on the implementation — value exports of (i) ⊆ exports of (iii), same default, same document
 //!    (marker alias `d<i>` of the definition / JSON of the constant), the module is loadable (no duplicate `const`, names are bindings).
+//! Interleaved sessions (c14/session.rs): several files of one project are built by ONE loader instance with their ABI call
+//!    sequences interleaved (systematic and random schedules, builds given up, failing builds); the module returned for each
+//!    build's task id is compared with the one-at-a-time module and, when it differs, judged in O against the declaration file
+//!    of that file (signatures `interleaved:*`).
 use nitrogql_ast::{set_current_file_of_pos, OperationDocument};
 use nitrogql_checker::{check_operation_document, OperationCheckContext};
 use nitrogql_config_file::{parse_config, Config};
@@ -27,6 +31,9 @@ use sourcemap_writer::JustWriter;
 use std::borrow::Cow;
 use std::collections::BTreeMap;
 use std::path::{Path, PathBuf};
+
+#[path = "c14/session.rs"]
+mod session;
 
 const SCHEMA_SDL: &str = "
 type Query { a: Int me: User q: Query }
@@ -946,6 +953,7 @@ struct Ctx<'a> {
     scratch: PathBuf,
     /// replay mode: put the real texts into the result notes
     dump: bool,
+    worker_seconds: f64,
 }
 
 fn consts_of(stmts: &[Sexp]) -> Vec<(String, usize, bool)> {
@@ -982,8 +990,32 @@ impl<'a> Ctx<'a> {
     }
 
     fn one(&mut self, case: &Case, ans: &Sexp, _reqs: &[Sexp]) {
+        self.judge(case, ans, None);
+    }
+
+    /// an O failure; in an interleaved session the signature gets the prefix `interleaved:` and the call trace is appended
+    fn ofail(&mut self, inter: Option<&Inter>, signature: &str, what: &str, cj: Value) {
+        match inter {
+            Some(i) => self.rep.fail("O", &format!("interleaved:{signature}"), &format!("[interleaved session, task t{} = {}] {what}{}", i.root, i.path, i.trace_text()), cj),
+            None => self.rep.fail("O", signature, what, cj),
+        }
+    }
+
+    fn fail_total(&self) -> u64 {
+        self.rep.dist.iter().filter(|(k, _)| k.starts_with("fail:")).map(|(_, v)| *v).sum()
+    }
+
+    /// `inter = None`: one case, the loader driven one task at a time (K and O).
+    /// `inter = Some(..)`: the module came out of an interleaved session; judged in O only, by the property's wording,
+    /// against the declaration file generated for that file (signatures `interleaved:*`, replay case = the session).
+    fn judge(&mut self, case: &Case, ans: &Sexp, inter: Option<&Inter>) {
         self.rep.evaluations += 1;
-        let cj = case.to_json();
+        let cj = match inter {
+            Some(i) => i.session.clone(),
+            None => case.to_json(),
+        };
+        let seq = inter.is_none();
+        let fails_before = self.fail_total();
         if ans.head() != Some("ok") {
             self.rep.fail("K", "driver", &format!("model driver answered {ans} to {}", case.request()), cj);
             return;
@@ -1022,10 +1054,24 @@ impl<'a> Ctx<'a> {
             }
         };
         // (iii)
-        let loader = match real_loader(case) {
+        let loader_result = match inter {
+            Some(i) => i.loader.clone(),
+            None => real_loader(case),
+        };
+        let loader = match loader_result {
             Ok(js) => js,
-            Err(e) => {
+            Err(e) if seq => {
                 self.rep.fail("K", "loader-error", &format!("the loader ABI fails on a generated case: {e}"), cj);
+                return;
+            }
+            Err(e) => {
+                // no module at all: every declared value export is missing
+                let declared = statements(&lib.dts).and_then(|s| canonical(&s)).map(|c| value_exports(&c)).unwrap_or_default();
+                if lib.check_errors == 0 && !declared.is_empty() {
+                    self.rep.o_cases += 1;
+                    self.ofail(inter, "no-module", &format!("the loader produces no module for this file ({e}) while its declaration file declares the value exports {:?}",
+                        declared.iter().map(|x| &x.0).collect::<Vec<_>>()), cj);
+                }
                 return;
             }
         };
@@ -1036,14 +1082,17 @@ impl<'a> Ctx<'a> {
             let dir = self.scratch.join("c14-cli");
             match real_cli(case, &self.cli, &dir) {
                 Ok((ext, text)) => {
-                    self.rep.k_cases += 1;
+                    if seq {
+                        self.rep.k_cases += 1;
+                    }
                     self.rep.count("path:cli-generate");
-                    if ext != m_ext {
+                    if seq && ext != m_ext {
                         self.rep.fail("K", "decl-extension", &format!("cli wrote main.{ext}, model says main.{m_ext}"), cj.clone());
                     }
                     cli_dts = Some(text);
                 }
-                Err(e) => self.rep.fail("K", "cli-error", &format!("nitrogql-cli generate failed on a checked file: {e}"), cj.clone()),
+                Err(e) if seq => self.rep.fail("K", "cli-error", &format!("nitrogql-cli generate failed on a checked file: {e}"), cj.clone()),
+                Err(_) => {}
             }
         }
         if let Some(t) = &cli_dts {
@@ -1052,18 +1101,27 @@ impl<'a> Ctx<'a> {
         // K: statements of every text vs the model
         let mut real: BTreeMap<&str, Vec<Sexp>> = BTreeMap::new();
         for (label, text, model) in &texts {
-            self.rep.k_cases += 1;
+            if seq {
+                self.rep.k_cases += 1;
+            }
             let canon = statements(text).and_then(|s| canonical(&s));
             match canon {
                 Ok(c) => {
-                    if &c != *model {
+                    if seq && &c != *model {
                         self.rep.fail("K", &format!("statements:{label}"), &format!(
                             "{label}: code {} model {} (config {:?})", Sexp::list(c.clone()), Sexp::list((*model).clone()), case.config_text), cj.clone());
                     }
                     real.insert(label, c);
                 }
-                Err(e) => self.rep.fail("K", &format!("extract:{label}"), &format!("{label}: cannot read the printed module: {e}"), cj.clone()),
+                Err(e) if seq => self.rep.fail("K", &format!("extract:{label}"), &format!("{label}: cannot read the printed module: {e}"), cj.clone()),
+                Err(e) if *label == "loader" && lib.check_errors == 0 => {
+                    self.ofail(inter, "unreadable-module", &format!("the module the loader returned for this task is not a readable module: {e}"), cj.clone())
+                }
+                Err(_) => {}
             }
+        }
+        if !seq {
+            self.rep.count("interleaved:modules-judged-against-their-declaration-file");
         }
         self.rep.count(&format!("config-format:{}", if case.config_text.trim_start().starts_with('{') { "json" } else { "yaml" }));
         let mode = case.cfg.iter().find(|(k, _)| k == "mode").and_then(|(_, v)| v.as_str()).unwrap_or("(absent)");
@@ -1103,7 +1161,7 @@ impl<'a> Ctx<'a> {
             seen.entry(n.as_str()).or_default().push(*i);
         }
         let collided = seen.values().any(|v| v.len() > 1);
-        if m_nocollision == collided {
+        if seq && m_nocollision == collided {
             self.rep.fail("K", "nocollision", &format!("model NoCollision = {m_nocollision}, real module has a duplicate constant = {collided}"), cj.clone());
         }
         for (src, dts) in decl_sources {
@@ -1112,7 +1170,7 @@ impl<'a> Ctx<'a> {
             // 1. every declared value export is exported by the loader's module
             for (e, _) in &d_exports {
                 if !l_exports.iter().any(|(le, _)| le == e) {
-                    self.rep.fail("O", "missing-export", &format!("[{src}] the declaration file exports value {e:?}, the loader's module does not (loader exports {:?})",
+                    self.ofail(inter, "missing-export", &format!("[{src}] the declaration file exports value {e:?}, the loader's module does not (loader exports {:?})",
                         l_exports.iter().map(|x| &x.0).collect::<Vec<_>>()), cj.clone());
                 }
             }
@@ -1126,16 +1184,16 @@ impl<'a> Ctx<'a> {
             let dd: Vec<&(String, String)> = dd_v.iter().collect();
             let ld: Vec<&(String, String)> = ld_v.iter().collect();
             if dd.len() > 1 || ld.len() > 1 {
-                self.rep.fail("O", "default-twice", &format!("[{src}] more than one default export"), cj.clone());
+                self.ofail(inter, "default-twice", &format!("[{src}] more than one default export"), cj.clone());
             }
             if let Some((_, local)) = dd.first() {
                 if ld.first().map(|x| &x.1) != Some(local) {
-                    self.rep.fail("O", "default-differs", &format!("[{src}] default export is {local:?} in the declaration file, {:?} in the loader's module", ld.first().map(|x| &x.1)), cj.clone());
+                    self.ofail(inter, "default-differs", &format!("[{src}] default export is {local:?} in the declaration file, {:?} in the loader's module", ld.first().map(|x| &x.1)), cj.clone());
                 }
                 let nops = case.defs.iter().filter(|d| d.op).count();
                 let target: Vec<&(String, usize, bool)> = d_consts.iter().filter(|(n, _, _)| n == local).collect();
                 if nops != 1 || !target.iter().any(|(_, i, _)| case.defs.get(*i).map(|d| d.op).unwrap_or(false)) {
-                    self.rep.fail("O", "default-not-single-operation", &format!("[{src}] default export {local:?} with {nops} operations in the file"), cj.clone());
+                    self.ofail(inter, "default-not-single-operation", &format!("[{src}] default export {local:?} with {nops} operations in the file"), cj.clone());
                 }
             }
             if d_exports.is_empty() {
@@ -1143,8 +1201,9 @@ impl<'a> Ctx<'a> {
                 continue;
             }
             // 3. the loader's module must be loadable: no name declared twice
+            //    (3 and 4 do not depend on how the loader was driven: judged in the one-at-a-time stream only)
             for (n, idxs) in &seen {
-                if idxs.len() > 1 {
+                if seq && idxs.len() > 1 {
                     let kinds: Vec<&str> = idxs.iter().map(|i| if case.defs.get(*i).map(|d| d.op).unwrap_or(false) { "op" } else { "fragment" }).collect();
                     let class = if kinds.iter().all(|k| *k == "op") { "op-op" } else if kinds.iter().all(|k| *k == "fragment") { "fragment-fragment" } else { "op-fragment" };
                     self.rep.fail("O", &format!("collision:{class}"), &format!(
@@ -1153,7 +1212,8 @@ impl<'a> Ctx<'a> {
                 }
             }
             // 4. names must be bindings
-            if suffix_ok {
+            if !seq {
+            } else if suffix_ok {
                 for (n, i, _) in &l_consts {
                     let anonymous = case.defs.get(*i).map(|d| d.op && d.name.is_none()).unwrap_or(false);
                     let bad_ident = n.is_empty() || !ident_like(n) || n.chars().next().map(|c| c.is_ascii_digit()).unwrap_or(false);
@@ -1174,14 +1234,14 @@ impl<'a> Ctx<'a> {
                     let d_idx: Vec<usize> = d_consts.iter().filter(|(n, _, _)| n == local).map(|x| x.1).collect();
                     let l_idx: Vec<usize> = l_consts.iter().filter(|(n, _, _)| n == local).map(|x| x.1).collect();
                     if d_idx.len() != 1 || l_idx != d_idx {
-                        self.rep.fail("O", "wrong-document", &format!("[{src}] export {e:?}: declaration is for definition {d_idx:?}, the loader's constant {local:?} holds the document of {l_idx:?}"), cj.clone());
+                        self.ofail(inter, "wrong-document", &format!("[{src}] export {e:?}: declaration is for definition {d_idx:?}, the loader's constant {local:?} holds the document of {l_idx:?}"), cj.clone());
                         continue;
                     }
                     // the generated name is the one the configuration asks for (independent restatement of operation_variable_name)
                     if let Some(d) = case.defs.get(d_idx[0]) {
                         let want = expected_name(&case.cfg, d);
                         if &want != local {
-                            self.rep.fail("O", "name", &format!("[{src}] definition {} is declared as {local:?}, the documented rule gives {want:?}", d_idx[0]), cj.clone());
+                            self.ofail(inter, "name", &format!("[{src}] definition {} is declared as {local:?}, the documented rule gives {want:?}", d_idx[0]), cj.clone());
                         }
                     }
                 }
@@ -1202,14 +1262,14 @@ impl<'a> Ctx<'a> {
                                 None => first.get("name").map(|x| x.is_null()).unwrap_or(true),
                             };
                             if !kind_ok || !name_ok {
-                                self.rep.fail("O", "document-mismatch", &format!("loader constant {name:?} (definition {m}) holds a document whose first definition is {} {}", first["kind"], first["name"]["value"]), cj.clone());
+                                self.ofail(inter, "document-mismatch", &format!("loader constant {name:?} (definition {m}) holds a document whose first definition is {} {}", first["kind"], first["name"]["value"]), cj.clone());
                             }
                         }
                         for t in &ds {
                             if let Stmt::Const { name: n2, value: Some(v2), .. } = t {
                                 if n2 == name && json_marker(v2).ok() == Some(m) {
                                     if serde_json::from_str::<Value>(v2).ok().as_ref() != Some(&j) {
-                                        self.rep.fail("O", "value-differs", &format!("standalone module and loader module hold different documents for {name:?}"), cj.clone());
+                                        self.ofail(inter, "value-differs", &format!("standalone module and loader module hold different documents for {name:?}"), cj.clone());
                                     }
                                     self.rep.count("O:standalone-value-compared");
                                 }
@@ -1219,10 +1279,422 @@ impl<'a> Ctx<'a> {
                 }
             }
         }
+        if let Some(i) = inter {
+            // the module of a file must not depend on what else the loader instance is doing
+            if self.fail_total() == fails_before && i.sequential.as_ref().ok() != Some(&loader) {
+                self.ofail(inter, "module-depends-on-history", "the module differs from the module a fresh one-at-a-time session returns for the same file and configuration (declared exports are all present and carry the right documents)", cj.clone());
+            }
+            return;
+        }
         let nontrivial_cfg = case.cfg.iter().any(|(k, _)| k != "mode");
         if !value_exports(r_dts).is_empty() && (case.defs.len() >= 2 || nontrivial_cfg) {
             self.rep.nontrivial(&case.request().to_line());
         }
+    }
+}
+
+// ---------------------------------------------------------------------------------------- interleaved sessions
+
+/// a module that came out of an interleaved session, with what it is compared to
+struct Inter {
+    loader: Result<String, String>,
+    /// the module a fresh one-at-a-time session returns for the same file
+    sequential: Result<String, String>,
+    /// replay case
+    session: Value,
+    root: usize,
+    path: String,
+    trace: Vec<String>,
+}
+impl Inter {
+    fn trace_text(&self) -> String {
+        if self.trace.is_empty() { String::new() } else { format!("; ABI calls of the session: {}", self.trace.join(" | ")) }
+    }
+}
+
+/// several operation files of one project (one config), built by ONE loader instance
+#[derive(Clone, Debug)]
+struct Project {
+    cfg: Vec<(String, Value)>,
+    config_text: String,
+    roots: Vec<Case>,
+    /// further builds whose result is not judged (a file that does not parse, a file importing a file that does not exist):
+    /// builds that fail and — as in index.mjs — are never freed
+    noise: Vec<String>,
+}
+
+/// how the builds of a project are interleaved; `None` in the schedule = `load_config`
+#[derive(Clone, Debug)]
+struct SessionSpec {
+    schedule: Vec<Option<usize>>,
+    abandon: Vec<Option<usize>>,
+    reverse_loads: bool,
+}
+
+impl SessionSpec {
+    fn one_at_a_time(ntasks: usize) -> SessionSpec {
+        SessionSpec { schedule: vec![None], abandon: vec![None; ntasks], reverse_loads: false }
+    }
+    fn to_json(&self) -> Value {
+        json!({
+            "schedule": self.schedule.iter().map(|x| match x { Some(k) => json!(k), None => json!("cfg") }).collect::<Vec<_>>(),
+            "abandon": self.abandon,
+            "reverse_loads": self.reverse_loads,
+        })
+    }
+    fn from_json(v: &Value) -> SessionSpec {
+        SessionSpec {
+            schedule: v["schedule"].as_array().map(|a| a.iter().map(|x| x.as_u64().map(|n| n as usize)).collect()).unwrap_or_default(),
+            abandon: v["abandon"].as_array().map(|a| a.iter().map(|x| x.as_u64().map(|n| n as usize)).collect()).unwrap_or_default(),
+            reverse_loads: v["reverse_loads"].as_bool().unwrap_or(false),
+        }
+    }
+}
+
+impl Project {
+    fn ntasks(&self) -> usize {
+        self.roots.len() + self.noise.len()
+    }
+    /// every root file lives in its own directory (`#import "./f1.graphql"` is relative to it)
+    fn in_dir(k: usize, path: &str) -> String {
+        format!("/p/r{k}/{}", path.strip_prefix("/p/").unwrap_or(path))
+    }
+    fn task_path(&self, k: usize) -> String {
+        if k < self.roots.len() { Project::in_dir(k, MAIN_PATH) } else { format!("/p/x{}/main.graphql", k - self.roots.len()) }
+    }
+    /// number of ABI calls of the build of task k (initiate, required, load…, required, emit, free)
+    fn steps(&self, k: usize) -> usize {
+        match self.roots.get(k) {
+            Some(c) if c.imports.is_empty() => 4,
+            Some(c) => 5 + c.imports.len(),
+            None => 3,
+        }
+    }
+    /// the build of task k in three stretches: start (initiate + status), supply (load… + status), finish (emit + free)
+    fn groups(&self, k: usize) -> Vec<usize> {
+        match self.roots.get(k) {
+            Some(c) if c.imports.is_empty() => vec![2, 2],
+            Some(c) => vec![2, c.imports.len() + 1, 2],
+            None => vec![2, 1],
+        }
+    }
+    fn request_base(&self) -> Value {
+        let mut tasks = vec![];
+        let mut files = serde_json::Map::new();
+        for (k, c) in self.roots.iter().enumerate() {
+            tasks.push(json!({"path": self.task_path(k), "text": c.main}));
+            for (p, t) in &c.imports {
+                files.insert(Project::in_dir(k, p), json!(t));
+            }
+        }
+        for (j, t) in self.noise.iter().enumerate() {
+            tasks.push(json!({"path": self.task_path(self.roots.len() + j), "text": t}));
+        }
+        json!({"config_text": self.config_text, "tasks": tasks, "files": files})
+    }
+    fn session_json(&self, spec: &SessionSpec) -> Value {
+        let mut v = spec.to_json();
+        v["kind"] = json!("interleaved");
+        v["cfg"] = json!(self.cfg.iter().map(|(k, v)| json!([k, v])).collect::<Vec<_>>());
+        v["config_text"] = json!(self.config_text);
+        v["roots"] = json!(self.roots.iter().map(|c| c.to_json()).collect::<Vec<_>>());
+        v["noise"] = json!(self.noise);
+        v
+    }
+    fn from_json(v: &Value) -> Project {
+        let roots: Vec<Case> = v["roots"].as_array().map(|a| a.iter().map(Case::from_json).collect()).unwrap_or_default();
+        Project {
+            cfg: roots.first().map(|c| c.cfg.clone()).unwrap_or_default(),
+            config_text: v["config_text"].as_str().unwrap_or("").to_string(),
+            roots,
+            noise: v["noise"].as_array().map(|a| a.iter().map(|x| x.as_str().unwrap_or("").to_string()).collect()).unwrap_or_default(),
+        }
+    }
+}
+
+const ROOT_OPS: [(&str, [&str; 3]); 4] = [
+    ("query", ["listUsers", "countUsers", "searchUsers"]),
+    ("mutation", ["rename", "removeUser", "addUser"]),
+    ("query", ["getMe", "viewer", "profile"]),
+    ("subscription", ["onEvent", "onTick", "feed"]),
+];
+
+/// a file with imports (its build stays pending across get_required_files / load_file rounds) whose definitions have
+/// names no other root file of the project uses
+fn distinct_file(k: usize, rng: &mut Rng) -> FileSpec {
+    let (kind, names) = ROOT_OPS[k % ROOT_OPS.len()];
+    let mut spec = FileSpec { spread: [0, 1, 2][rng.below(3)], ..Default::default() };
+    let nops = if rng.chance(3, 5) { 1 } else { 2 };
+    let mut locals = vec![];
+    for i in 0..nops {
+        let kind = if i == 0 { kind } else { ["query", "mutation", "subscription"][rng.below(3)] };
+        locals.push(Local::Op { kind, name: Some(format!("{}{}", names[(i + rng.below(2)) % 3], if k >= ROOT_OPS.len() { k.to_string() } else { String::new() })) });
+        if i == 0 && nops == 2 {
+            // two different names
+            locals.push(Local::Op { kind: "query", name: Some(format!("{}Too{k}", names[2])) });
+            break;
+        }
+    }
+    let on = |rng: &mut Rng| if rng.chance(1, 3) { "User" } else { "Query" };
+    for c in 0..rng.below(3) {
+        locals.push(Local::Frag { name: format!("Local{k}{}", ["A", "B"][c]), on: on(rng) });
+    }
+    rng.shuffle(&mut locals);
+    spec.locals = locals;
+    for j in 0..1 + rng.below(2) {
+        let wildcard = rng.coin();
+        let mut frags = vec![];
+        for c in 0..1 + rng.below(2) {
+            frags.push((format!("Shared{k}{j}{}", ["A", "B"][c]), on(rng)));
+        }
+        let extra = if !wildcard && rng.coin() { vec![(format!("Unused{k}{j}"), on(rng))] } else { vec![] };
+        spec.imports.push(Import { wildcard, frags, extra });
+    }
+    spec
+}
+
+fn make_project(cfg: Vec<(String, Value)>, specs: &[FileSpec], noise: Vec<String>, rng: &mut Rng, cli: bool) -> Project {
+    let config_text = render_config(&cfg, rng, cli);
+    let roots = specs.iter().map(|s| {
+        let (main, imports, defs) = render_file(s, rng);
+        Case { cfg: cfg.clone(), config_text: config_text.clone(), main, imports, defs, cli }
+    }).collect();
+    Project { cfg, config_text, roots, noise }
+}
+
+const NOISE: &[&str] = &[
+    "query {",
+    "#import * from \"./missing.graphql\"\nquery Noise { a }\n",
+    "fragment on Query { a }",
+    "#import Gone from \"../nowhere/gone.graphql\"\nfragment NoiseFrag on Query { a ...Gone }\n",
+];
+
+fn random_project(rng: &mut Rng, cli: bool) -> Project {
+    let nroots = 2 + rng.below(3);
+    let specs: Vec<FileSpec> = (0..nroots).map(|k| if rng.coin() { distinct_file(k, rng) } else { random_file(rng) }).collect();
+    let mut noise = vec![];
+    if rng.chance(1, 4) {
+        noise.push(NOISE[rng.below(NOISE.len())].to_string());
+    }
+    make_project(random_cfg(rng), &specs, noise, rng, cli)
+}
+
+/// all distinct orders of a multiset: `counts[k]` occurrences of k
+fn interleavings(counts: &[usize]) -> Vec<Vec<usize>> {
+    fn rec(left: &mut Vec<usize>, cur: &mut Vec<usize>, out: &mut Vec<Vec<usize>>) {
+        if left.iter().all(|c| *c == 0) {
+            out.push(cur.clone());
+            return;
+        }
+        for k in 0..left.len() {
+            if left[k] > 0 {
+                left[k] -= 1;
+                cur.push(k);
+                rec(left, cur, out);
+                cur.pop();
+                left[k] += 1;
+            }
+        }
+    }
+    let mut out = vec![];
+    rec(&mut counts.to_vec(), &mut vec![], &mut out);
+    out
+}
+
+/// an order of stretches → a schedule of single calls; `load_config` after the first `initiate_task` (index.mjs) or up front
+fn expand(order: &[usize], groups: &[Vec<usize>], cfg_after_first: bool) -> Vec<Option<usize>> {
+    let mut next = vec![0usize; groups.len()];
+    let mut sched: Vec<Option<usize>> = vec![];
+    for &k in order {
+        let n = groups[k].get(next[k]).copied().unwrap_or(1);
+        next[k] += 1;
+        for _ in 0..n {
+            sched.push(Some(k));
+        }
+    }
+    sched.insert(if cfg_after_first && !sched.is_empty() { 1 } else { 0 }, None);
+    sched
+}
+
+fn random_session(proj: &Project, rng: &mut Rng) -> SessionSpec {
+    let n = proj.ntasks();
+    let abandon: Vec<Option<usize>> = (0..n).map(|_| if rng.chance(1, 6) { Some(1 + rng.below(4)) } else { None }).collect();
+    let mut left: Vec<usize> = (0..n).map(|k| proj.steps(k)).collect();
+    let mut sched: Vec<Option<usize>> = vec![];
+    match rng.below(3) {
+        0 => {
+            // any order of the single calls
+            let mut items: Vec<usize> = (0..n).flat_map(|k| std::iter::repeat(k).take(left[k])).collect();
+            rng.shuffle(&mut items);
+            sched = items.into_iter().map(Some).collect();
+        }
+        1 => {
+            // bursts: a build runs for a few calls, then another one continues
+            while left.iter().any(|c| *c > 0) {
+                let live: Vec<usize> = (0..n).filter(|k| left[*k] > 0).collect();
+                let k = live[rng.below(live.len())];
+                let run = (1 + rng.below(3)).min(left[k]);
+                left[k] -= run;
+                for _ in 0..run {
+                    sched.push(Some(k));
+                }
+            }
+        }
+        _ => {
+            // builds start one after the other, each later call goes to the build that started earliest with probability 1/2
+            let mut order: Vec<usize> = (0..n).collect();
+            rng.shuffle(&mut order);
+            let mut started = 0;
+            while left.iter().any(|c| *c > 0) {
+                if started < n && (started == 0 || rng.chance(1, 3)) {
+                    let k = order[started];
+                    started += 1;
+                    left[k] -= 1;
+                    sched.push(Some(k));
+                    continue;
+                }
+                let live: Vec<usize> = order[..started].iter().copied().filter(|k| left[*k] > 0).collect();
+                if live.is_empty() {
+                    if started >= n { break }
+                    let k = order[started];
+                    started += 1;
+                    left[k] -= 1;
+                    sched.push(Some(k));
+                    continue;
+                }
+                let k = if rng.coin() { live[0] } else { live[rng.below(live.len())] };
+                left[k] -= 1;
+                sched.push(Some(k));
+            }
+        }
+    }
+    let at = if rng.chance(1, 3) && !sched.is_empty() { 1 } else { 0 };
+    sched.insert(at, None);
+    if rng.chance(1, 5) {
+        let at = rng.below(sched.len() + 1);
+        sched.insert(at, None);
+    }
+    SessionSpec { schedule: sched, abandon, reverse_loads: rng.coin() }
+}
+
+impl<'a> Ctx<'a> {
+    /// the roots one at a time (K and O as for any case), then the given sessions on one loader instance each
+    fn run_project(&mut self, client: &mut session::Client, proj: &Project, specs: &[SessionSpec], label: &str) {
+        self.run(&proj.roots);
+        let reference: Vec<Result<String, String>> = proj.roots.iter().map(real_loader).collect();
+        let mut all = vec![SessionSpec::one_at_a_time(proj.ntasks())];
+        all.extend(specs.iter().cloned());
+        let all_json: Vec<Value> = all.iter().map(|s| s.to_json()).collect();
+        let base = proj.request_base();
+        let base_hash = nvh::report::fnv(&base.to_string());
+        let t0 = std::time::Instant::now();
+        let answers = client.run(&base, &all_json);
+        self.worker_seconds += t0.elapsed().as_secs_f64();
+        // the fresh one-at-a-time session of the worker (several builds, one after the other, on one instance)
+        let mut sequential: Vec<Result<String, String>> = reference.clone();
+        for (j, (spec, ans)) in all.iter().zip(answers.iter()).enumerate() {
+            self.rep.count(&format!("interleaved:sessions:{}", if j == 0 { "one-at-a-time" } else { label }));
+            let sj = proj.session_json(spec);
+            let v = match ans {
+                session::Answer::Ok(v) if v.get("out").is_some() => v,
+                session::Answer::Ok(v) => {
+                    self.rep.fail("O", "interleaved:loader-abort", &format!("the loader panics in a session of {} builds (worker answered {v})", proj.ntasks()), sj);
+                    continue;
+                }
+                session::Answer::Died(why) => {
+                    self.rep.fail("O", "interleaved:loader-abort", &format!("the loader process dies in a session of {} builds: {why}; no module for any file", proj.ntasks()), sj);
+                    continue;
+                }
+            };
+            let live_max = v["live_max"].as_u64().unwrap_or(0);
+            if j > 0 {
+                self.rep.count(&format!("interleaved:tasks={},max-live={}", proj.ntasks(), live_max));
+                if v["reissue_window"].as_bool().unwrap_or(false) {
+                    self.rep.count("interleaved:feature:initiate-after-a-free-while-an-older-build-is-pending");
+                }
+                if spec.abandon.iter().any(|a| a.is_some()) {
+                    self.rep.count("interleaved:feature:build-given-up(free without emit)");
+                }
+                if live_max >= 2 {
+                    self.rep.nontrivial(&format!("{base_hash:x} {}", all_json[j]));
+                }
+            }
+            let trace: Vec<String> = v["trace"].as_array().map(|a| a.iter().map(|x| x.as_str().unwrap_or("").to_string()).collect()).unwrap_or_default();
+            for (k, case) in proj.roots.iter().enumerate() {
+                let out = &v["out"][k];
+                let got: Result<String, String> = match out[0].as_str().unwrap_or("") {
+                    "abandoned" => {
+                        self.rep.count("interleaved:module:none(build given up)");
+                        continue;
+                    }
+                    "=" => sequential[k].clone(),
+                    "js" => Ok(out[1].as_str().unwrap_or("").to_string()),
+                    _ => Err(out[1].as_str().unwrap_or("").to_string()),
+                };
+                if j == 0 {
+                    sequential[k] = got.clone();
+                }
+                if got == reference[k] {
+                    // same text as the module judged against the declaration file in the one-at-a-time stream: same verdict
+                    self.rep.o_cases += 1;
+                    self.rep.count("interleaved:module:identical-to-one-at-a-time");
+                    continue;
+                }
+                let inter = Inter { loader: got, sequential: reference[k].clone(), session: sj.clone(), root: k, path: proj.task_path(k), trace: trace.clone() };
+                let ans = self.drv.batch(&[case.request()]);
+                if let Some(a) = ans.first() {
+                    self.judge(case, a, Some(&inter));
+                }
+            }
+        }
+    }
+
+    fn interleaved_stream(&mut self, client: &mut session::Client, rng: &mut Rng, thorough: bool) {
+        let cli = !self.cli.is_empty();
+        let pick = |q: usize, t: usize| if thorough { t } else { q };
+        // (a) two builds, every order of their single calls
+        for _ in 0..pick(1, 6) {
+            let specs = vec![distinct_file(0, rng), distinct_file(1, rng)];
+            let specs: Vec<FileSpec> = if thorough { specs } else { specs.into_iter().map(|mut s| { s.imports.truncate(1); s }).collect() };
+            let proj = make_project(random_cfg(rng), &specs, vec![], rng, cli);
+            let counts: Vec<usize> = (0..2).map(|k| proj.steps(k)).collect();
+            let sessions: Vec<SessionSpec> = interleavings(&counts).into_iter().map(|o| {
+                let mut schedule: Vec<Option<usize>> = o.into_iter().map(Some).collect();
+                schedule.insert(0, None);
+                SessionSpec { schedule, abandon: vec![None; 2], reverse_loads: false }
+            }).collect();
+            self.run_project(client, &proj, &sessions, "2-builds-every-order-of-calls");
+        }
+        // (b) three builds, every order of their stretches (start / supply imported files / finish)
+        for i in 0..pick(2, 12) {
+            let specs: Vec<FileSpec> = (0..3).map(|k| distinct_file(k + (i % 2), rng)).collect();
+            let proj = make_project(random_cfg(rng), &specs, vec![], rng, cli);
+            let groups: Vec<Vec<usize>> = (0..3).map(|k| proj.groups(k)).collect();
+            let counts: Vec<usize> = groups.iter().map(|g| g.len()).collect();
+            let sessions: Vec<SessionSpec> = interleavings(&counts).into_iter().map(|o| SessionSpec { schedule: expand(&o, &groups, i % 2 == 1), abandon: vec![None; 3], reverse_loads: i % 3 == 2 }).collect();
+            self.run_project(client, &proj, &sessions, "3-builds-every-order-of-stretches");
+        }
+        // (c) three builds, one of them given up after its start or while its files are supplied
+        for i in 0..pick(1, 6) {
+            let specs: Vec<FileSpec> = (0..3).map(|k| distinct_file(k, rng)).collect();
+            let proj = make_project(random_cfg(rng), &specs, vec![], rng, false);
+            let victim = i % 3;
+            let after = 2 + (i / 3) % 2;
+            let mut groups: Vec<Vec<usize>> = (0..3).map(|k| proj.groups(k)).collect();
+            groups[victim] = vec![after, 1];
+            let counts: Vec<usize> = groups.iter().map(|g| g.len()).collect();
+            let mut abandon = vec![None; 3];
+            abandon[victim] = Some(after);
+            let sessions: Vec<SessionSpec> = interleavings(&counts).into_iter().map(|o| SessionSpec { schedule: expand(&o, &groups, false), abandon: abandon.clone(), reverse_loads: false }).collect();
+            self.run_project(client, &proj, &sessions, "3-builds-one-given-up");
+        }
+        // (d) 2–4 builds (+ failing builds), random orders of the single calls, builds given up at random points
+        for i in 0..pick(200, 2000) {
+            let proj = random_project(rng, cli && i % 25 == 0);
+            let sessions: Vec<SessionSpec> = (0..pick(8, 12)).map(|_| random_session(&proj, rng)).collect();
+            self.run_project(client, &proj, &sessions, "random");
+        }
+        self.rep.extra.insert("interleaved_session_workers_spawned".into(), json!(client.spawned));
     }
 }
 
@@ -1279,9 +1751,13 @@ fn corpus(rng: &mut Rng) -> Vec<Case> {
 }
 
 fn main() {
+    if std::env::args().nth(1).as_deref() == Some("--session-worker") {
+        session::worker_main();
+        return;
+    }
     let args = Args::parse();
     quiet_panics();
-    let mut rep = Report::new("C14", "case = (config text, operation file text, imported file texts); non-trivial = check accepts the document, the declaration file has at least one value export, and the file has >= 2 definitions or a naming/export option is set; distinct by (abstract config, resolved document)");
+    let mut rep = Report::new("C14", "case = (config text, operation file text, imported file texts); non-trivial = check accepts the document, the declaration file has at least one value export, and the file has >= 2 definitions or a naming/export option is set; distinct by (abstract config, resolved document); an interleaved loader session (several files of one project built by one loader instance) is non-trivial if at least two builds are pending at the same time; distinct by (project texts, call schedule)");
     let mut drv = Driver::spawn(&args.driver);
     let schema_doc = {
         let mut doc = parse_type_system_document(SCHEMA_SDL).expect("schema parses");
@@ -1293,11 +1769,16 @@ fn main() {
     let cli = args.extra.get("cli").cloned().unwrap_or_default();
     let cli = if Path::new(&cli).exists() { cli } else { String::new() };
     let scratch = PathBuf::from(if args.scratch.is_empty() { std::env::temp_dir().join("nv-c14").to_string_lossy().to_string() } else { args.scratch.clone() });
-    let mut ctx = Ctx { rep: &mut rep, drv: &mut drv, schema, cli: cli.clone(), scratch, dump: args.replay.is_some() };
+    let mut ctx = Ctx { rep: &mut rep, drv: &mut drv, schema, cli: cli.clone(), scratch, dump: args.replay.is_some(), worker_seconds: 0.0 };
 
     if let Some(path) = &args.replay {
         let v: Value = serde_json::from_str(&std::fs::read_to_string(path).expect("replay file")).expect("replay json");
-        ctx.run(&[Case::from_json(&v["case"])]);
+        if v["case"]["kind"] == "interleaved" {
+            let mut client = session::Client::new();
+            ctx.run_project(&mut client, &Project::from_json(&v["case"]), &[SessionSpec::from_json(&v["case"])], "replay");
+        } else {
+            ctx.run(&[Case::from_json(&v["case"])]);
+        }
         rep.write(&args);
         return;
     }
@@ -1311,6 +1792,16 @@ fn main() {
         ctx.rep.sample(json!({"config_text": x.config_text, "main": x.main, "imports": x.imports}));
     }
     ctx.run(&c);
+
+    // interleaved loader sessions (own random stream: the other streams do not depend on it)
+    {
+        let mut client = session::Client::new();
+        let mut irng = Rng::new(args.seed ^ 0x1417_5E55_1045);
+        let t0 = std::time::Instant::now();
+        ctx.interleaved_stream(&mut client, &mut irng, args.thorough());
+        let secs = json!({"total": (t0.elapsed().as_secs_f64() * 10.0).round() / 10.0, "in_session_worker": (ctx.worker_seconds * 10.0).round() / 10.0});
+        ctx.rep.extra.insert("interleaved_seconds".into(), secs);
+    }
 
     // the product: Booleans (with "absent") × modes × fixed files × suffix choices
     let files = fixed_files();
